@@ -19,7 +19,10 @@ func init() {
 func C05_Jobs() []string {
 	var out []string
 	for _, j := range shapeJobs() {
-		_, _, variant, d := split3(j)
+		_, tm, variant, d := split3(j)
+		if tm == "T5" || tm == "T6" {
+			continue // the relational twin check covers primitives' placements T1..T4
+		}
 		if variant == "stest" {
 			continue // a struct-level test that reads the catching field legitimately sees the catch value
 		}
@@ -139,6 +142,15 @@ func destEqualExcept(a, b *Dest, skip string) bool {
 	}
 	ok = v.And(ok, a.N.Y == b.N.Y)
 	ok = v.And(ok, v.And(a.C == b.C, a.U == b.U))
+	if len(a.LN) != len(b.LN) || (a.PN == nil) != (b.PN == nil) {
+		return false
+	}
+	for i := range a.LN {
+		ok = v.And(ok, v.And(a.LN[i].X == b.LN[i].X, a.LN[i].Y == b.LN[i].Y))
+	}
+	if a.PN != nil {
+		ok = v.And(ok, v.And(a.PN.X == b.PN.X, a.PN.Y == b.PN.Y))
+	}
 	return ok
 }
 
@@ -228,7 +240,7 @@ func C09_Jobs() []string {
 	var out []string
 	for _, j := range shapeJobs() {
 		_, t, _, d := split3(j)
-		if t == "T2" || t == "T4" {
+		if t == "T2" || t == "T4" || t == "T5" || t == "T6" {
 			// quick: plain, catch, required+catch, all three; thorough: every decoration
 			if v.Tier() == 0 && d != "d0" && d != "d4" && d != "d5" && d != "d7" {
 				continue
@@ -319,6 +331,14 @@ func populated(n Node) bool {
 			ok = v.And(ok, populated(k))
 		}
 		return ok
+	case *SliceStructNode:
+		ok := len(x.Els) > 0
+		for _, e := range x.Els {
+			ok = v.And(ok, populated(e))
+		}
+		return ok
+	case *PtrStructNode:
+		return populated(x.El)
 	}
 	return true
 }
